@@ -109,15 +109,15 @@ def binding_selftest(ctx, cases):
                 if e[0] == 0 and "allow" not in picked:
                     d = json.loads(line)
                     d["h"][idx][3] = 1 - e[3]
-                    picked["allow"] = (d, "AllowN")
+                    picked["allow"] = (d, "AllowN", c)
                 if e[0] == 1 and e[3] == 1 and e[4] > 0 and "delay" not in picked:
                     d = json.loads(line)
                     d["h"][idx][4] = e[4] + e[5]      # one tick more
-                    picked["delay"] = (d, "DelayFrom(now)")
+                    picked["delay"] = (d, "DelayFrom(now)", c)
                 if e[0] == 5 and e[3] > 0 and "probe" not in picked and not any(x[0] == 1 and x[3] == 1 and x[4] > 0 for x in h):
                     d = json.loads(line)
                     d["h"][idx][3] = e[3] - 1         # one unit (1/8 token) more in the bucket
-                    picked["probe"] = (d, "DelayFrom(now)")
+                    picked["probe"] = (d, "DelayFrom(now)", c)
             if len(picked) == 3:
                 break
     if len(picked) != 3:
@@ -126,11 +126,15 @@ def binding_selftest(ctx, cases):
     order = sorted(picked)
     with open(path, "w") as f:
         for k in order:
-            f.write(json.dumps(picked[k][0]) + "\n")
+            f.write(json.dumps(picked[k][2]) + "\n")   # the behaviour as generated
+            f.write(json.dumps(picked[k][0]) + "\n")   # the same with one expectation corrupted
     res = ctx.replay("rate", path)
-    for k, r in zip(order, res):
-        if r["ok"] or picked[k][1] not in r.get("what", ""):
-            raise vlib.Broken("self-test: a behaviour with a corrupted expected %s was not rejected: %r" % (k, r))
+    for n, k in enumerate(order):
+        orig, bad = res[2 * n], res[2 * n + 1]
+        if not orig["ok"]:
+            continue    # the library itself deviates on this behaviour: the replay of all cases reports it
+        if bad["ok"] or picked[k][1] not in bad.get("what", ""):
+            raise vlib.Broken("self-test: a behaviour with a corrupted expected %s was not rejected: %r" % (k, bad))
 
 
 def set_aside_observations(ctx):
@@ -178,10 +182,10 @@ def run(ctx):
         "Wait/Allow/Reserve/SetLimit/Cancel/Delay without a time argument read the real clock: bound by fixed scenarios on hourly limiters "
         "whose verdicts do not depend on how long a call takes",
     ]
-    ctx.sany("rate", "RateLimiter")
-    ctx.sany("rate", "Gen_RateLimiter")
+    ctx.sany("rate", "Gen_RateLimiter")     # extends MC_RateLimiter and RateLimiter
     # MC: the guarantees hold on the specification, all behaviours within the bounds (factored families)
-    for fam in ("fixed", "setlimit", "inf", "back", "zero"):
+    # (quick: the setlimit family includes Inf; thorough: a family of its own)
+    for fam in ("fixed", "setlimit", "back", "zero") + (() if quick else ("inf",)):
         ctx.tlc("rate", "MC_RateLimiter", "MC_RateLimiter_%s.%s.cfg" % (fam, ctx.tier), timeout=800,
                 coverage=(not quick and fam in ("setlimit", "zero")))
     if not quick:
